@@ -9,7 +9,7 @@ def register(prop, J):
               "characters) x scripted replies derived from the keys the server received (exact, subset, params changed or dropped, "
               "superset with an unrequested key); non-trivial = >= 2 keys; distinct by (call, reply)",
          jobs=[
-             J("batch-v2", "v2", "resprops", "^TestC16", checks=(6000, 300000), shards=(4, 16), prepare="prepare_resources",
+             J("batch-v2", "v2", "resprops", "^TestC16", checks=(6000, 3000000), shards=(4, 16), prepare="prepare_resources",
                extra_pkgs=["dyn", "gendrv"], timeout=(1200, 3000)),
          ],
          level_text="generated key multisets and server replies through generated bindings: duplicates rejected with zero requests on "
